@@ -296,8 +296,20 @@ def ppc(rng, L, hostile):
     return "c:" + hx(b), str(min(c, len(b) + 1))
 
 
-def gen_op(rng, L, hostile):
-    """one random operation line"""
+SCANNING = ("find", "rfind", "ffo", "ffno", "flo", "flno", "ct_", "iter_", "stream", "c_str", "data", "str", "sw_", "ew_")
+
+
+def gen_op(rng, L, hostile, noscan=False):
+    """one random operation line; `noscan`: no operation whose *model* walks the whole content index by index
+    (the list-based model is quadratic there; contents of 64 k characters are exercised by the mutators)"""
+    for _ in range(50):
+        line = gen_op1(rng, L, hostile)
+        if not (noscan and line.startswith(SCANNING)):
+            return line
+    return "length"
+
+
+def gen_op1(rng, L, hostile):
     P = lambda: pos(rng, L, hostile)
     S = lambda: "s:" + hx(content(rng, L, None, hostile))
     Cs = lambda: "c:" + hx(content(rng, L, None, hostile))
@@ -462,10 +474,12 @@ def fill_lines(rng, L, hostile):
 
 
 def random_case(rng, cid, hostile):
-    L = rng.choice(CAPS if rng.random() < 0.8 else [1, 2, 3, 4, 5, 7, 8, 15, 16])
+    x = rng.random()
+    L = rng.choice([1, 2, 3, 4, 5, 7, 8, 15, 16] if x < 0.55 else [254, 255, 256, 257] if x < 0.90 else [65534, 65535, 65536])
     lines = ["new %d" % L] + fill_lines(rng, L, hostile)
+    noscan = L > 300 and any(l.startswith("append_cc @rem") for l in lines)
     for _ in range(rng.randint(3, 14)):
-        lines.append(gen_op(rng, L, hostile))
+        lines.append(gen_op(rng, L, hostile, noscan))
     return Case(cid, lines)
 
 
